@@ -1569,3 +1569,58 @@ def rule_plain_status_follows_model(ctx, kind=None):
                     r.check(says_model == want_model, b.id, "status-inverted", "%s: YES exactly when the SAT call has %s" % (k, "a model" if want_model else "no model"), "the %s query answers YES exactly when its SAT call has %s, although the call asks for an extension %s a listed argument: the status is inverted" % (k, "a model" if says_model else "no model", "containing" if asks_member else "containing no"), b.loc())
     if n == 0:
         r.ok("plain", "NOT decided: no plain acceptance method reads its status off `is_some()` / `is_none()` of a model", None)
+
+
+def rule_running_intersection(ctx):
+    """C01 / C02 (ID): the arguments common to all preferred extensions"""
+    prog = ctx.prog
+    from ..prov import prov, show, subterms, roots
+    from .equiv import indexed_stores
+    from .grounded import inherited_conditions, _cond_trees, _is_call
+
+    r = ctx.rule(
+        "in-all-is-an-intersection",
+        "ideal solver: for each preferred extension visited, a member is kept in the new `in all extensions` vector only when the vector of the "
+        "extensions visited so far already has it (the store is governed by a read of the *other* vector at the same id), and the counter of "
+        "kept arguments is incremented under that same test",
+    )
+    n = 0
+    mod = "solvers::ideal_semantics_solver"
+    for b in sorted(prog.lib_bodies(), key=lambda x: x.id):
+        if b.kind != "closure" or not (prog.enclosing_fn(b).path.startswith(mod) or ("<" + mod) in prog.enclosing_fn(b).path):
+            continue
+        marks = [st for st in indexed_stores(prog, b) if st.is_bool and st.stores_const(True) and any(_is_call(e, r"Label::id$", 1) and e[2][0][0] == "elem" for e in prov(prog, b, st.idx))]
+        for st in marks:
+            n += 1
+            anchor = "%s|keep" % b.id
+            new_roots = roots(prog, b, st.recv)
+            idxs = set(prov(prog, b, st.idx))
+            conds = _cond_trees(prog, inherited_conditions(prog, b, st.site.bb))
+            guard = []
+            for c, t in conds:
+                if _is_call(c, r"Index::index$", 2) and c[2][1] in idxs:
+                    guard.append((c, t))
+            # the guard reads another vector than the one written
+            other = []
+            for y, cnd in inherited_conditions(prog, b, st.site.bb):
+                for o in origins(y, cnd.place, transparent=("core::ops::bit::Not::not",)):
+                    if o.kind == "call" and callee_decl(o.data) == "core::ops::index::Index::index":
+                        rr = roots(prog, y, o.site.node["args"][0])
+                        if rr and not (rr & new_roots):
+                            other.append(rr)
+            if not guard:
+                r.violation(anchor, "intersection-not-taken", "every member of the visited extension is kept in the new `in all extensions` vector, whether or not the earlier extensions had it: the vector ends up as the last extension, not the intersection", st.loc())
+                continue
+            r.check(all(t is True for c, t in guard) and bool(other), anchor, "intersection-guard:%s" % [t for c, t in guard], "kept only when the earlier extensions have it too", "a member is kept in the new vector %s" % ("when the earlier extensions do *not* have it" if not all(t is True for c, t in guard) else "under a test of the vector being written itself"), st.loc())
+            # counters incremented in the same closure
+            for s in b.sites():
+                nd = s.node
+                if s.si is not None and nd["k"] == "assign" and nd["dst"]["p"] == ["*"] and nd["rv"]["k"] == "use" and b.local_ty(nd["dst"]["l"]).replace("&", "").replace("mut ", "").strip() == "usize":
+                    for e in prov(prog, b, nd["rv"]["ops"][0]):
+                        core_ = e[1] if e[0] == "field" and e[2] == "0" and e[1][0] == "op" else e
+                        if core_[0] == "op" and core_[1] in ("Add", "AddWithOverflow") and ("const", 1) in core_[2]:
+                            n += 1
+                            c2 = _cond_trees(prog, inherited_conditions(prog, b, s.bb))
+                            r.check(all(g in c2 for g in guard), "%s|count" % b.id, "count-not-of-the-intersection", "the counter counts the kept members", "the counter of arguments common to all preferred extensions is incremented for members that are not kept: the test `the intersection is the grounded extension` compares the wrong number", s.loc())
+    if n == 0:
+        r.ok("intersection", "NOT decided: no per-member closure marking a bool vector found in the ideal solver", None)
